@@ -38,7 +38,10 @@ theorem rx_replaceFailedProxy {s : Store} (f choice : String) (hx : RX s) :
   · rw [h]; exact (SkelEq.bump s).rx hx
   · have hsk := afterTakeover_skelEq s name f hx.nodupNames
     have hx2 : RX (afterTakeover s name f) := hsk.rx hx
-    rcases h with ⟨np, cl, hg, hc, h⟩ | ⟨e, _, h⟩ | ⟨w, _, h⟩ | ⟨w, _, h⟩ | ⟨np, _, _, h⟩
+    rcases h with ⟨_, h⟩ | ⟨_, ⟨np, cl, hg, hc, h⟩ | ⟨e, _, h⟩ | ⟨w, _, h⟩ | ⟨w, _, h⟩ | ⟨np, _, _, h⟩⟩
+    · -- ordered mode: takeover + bump
+      rw [h]
+      exact (SkelEq.bump _).rx ((takeoverMaster_skelEq s name f hx.nodupNames).rx hx)
     · rw [h]
       obtain ⟨_, _, _, _, hnp, _⟩ := generateNewFreeProxy_ok hg
       exact rx_replaceResult hx2 hc ((findProxy_congr hsk.1 f).trans hfp) hpc hnp
@@ -88,7 +91,8 @@ theorem replaceFailedProxy_noPanic {s : Store} (f choice : String) (hx : RX s) :
         rw [findProxy_congr hsk.1 f, hfp] at hfp'; exact (Option.some.inj hfp').symm
       subst e
       exact row_of_member hx2.1 hm hpc
-    rcases h with ⟨np, cl, hg, hc, h⟩ | ⟨e, _, h⟩ | ⟨w, hg, h⟩ | ⟨w, _, h⟩ | ⟨np, _, hc, h⟩
+    rcases h with ⟨_, h⟩ | ⟨_, ⟨np, cl, hg, hc, h⟩ | ⟨e, _, h⟩ | ⟨w, hg, h⟩ | ⟨w, _, h⟩ | ⟨np, _, hc, h⟩⟩
+    · rw [h]; exact R.noPanic_ok _
     · rw [h]; exact R.noPanic_ok _
     · rw [h]; exact R.noPanic_err _
     · exact absurd hg (hnp w)
